@@ -40,9 +40,18 @@ class VerifLookupError(VerifError, LookupError):
     pass
 
 
+_ERRORS = {}
+
+
 def verif_error(code):
-    k = code % 4 if isinstance(code, int) else 0
-    return (VerifError, VerifValueError, VerifTypeError, VerifLookupError)[k](code)
+    """the exception a failing user function raises for `code`: one instance per code, raised
+    again and again (a module-level sentinel exception is legal python)"""
+    if code not in _ERRORS:
+        k = code % 4 if isinstance(code, int) else 0
+        _ERRORS[code] = (VerifError, VerifValueError, VerifTypeError, VerifLookupError)[k](code)
+    e = _ERRORS[code]
+    e.__traceback__ = None
+    return e
 
 
 class _Undecided(object):
